@@ -85,6 +85,76 @@ def ubound(v):
     return min(UB.get(v.e.get_id(), (1 << v.w) - 1), (1 << v.w) - 1)
 
 
+_LINVARS = {}        # ast id -> variable term (for rebuilding linear forms)
+_LINCACHE = {}
+
+
+def linear_form(e):
+    """(coefficients by variable ast id, constant) if `e` is a linear integer term over variables, else None"""
+    i = e.get_id()
+    if i in _LINCACHE:
+        return _LINCACHE[i]
+    r = None
+    if z3.is_int_value(e):
+        r = ({}, e.as_long())
+    elif z3.is_const(e) and e.decl().kind() == z3.Z3_OP_UNINTERPRETED:
+        _LINVARS[i] = e
+        r = ({i: 1}, 0)
+    elif z3.is_app(e):
+        k = e.decl().kind()
+        kids = [linear_form(c) for c in e.children()]
+        if all(x is not None for x in kids):
+            if k == z3.Z3_OP_ADD:
+                co, cst = {}, 0
+                for (c, s) in kids:
+                    cst += s
+                    for v, q in c.items():
+                        co[v] = co.get(v, 0) + q
+                r = (co, cst)
+            elif k == z3.Z3_OP_SUB and len(kids) >= 1:
+                co, cst = dict(kids[0][0]), kids[0][1]
+                for (c, s) in kids[1:]:
+                    cst -= s
+                    for v, q in c.items():
+                        co[v] = co.get(v, 0) - q
+                r = (co, cst)
+            elif k == z3.Z3_OP_UMINUS:
+                r = ({v: -q for v, q in kids[0][0].items()}, -kids[0][1])
+            elif k == z3.Z3_OP_MUL:
+                consts = [x for x in kids if not x[0]]
+                non = [x for x in kids if x[0]]
+                if len(non) <= 1:
+                    f = 1
+                    for x in consts:
+                        f *= x[1]
+                    if non:
+                        r = ({v: q * f for v, q in non[0][0].items()}, non[0][1] * f)
+                    else:
+                        r = ({}, f)
+    if r is not None:
+        r = ({v: q for v, q in r[0].items() if q != 0}, r[1])
+    _LINCACHE[i] = r
+    KEEP.append(e)
+    return r
+
+
+INTERVALS = {}       # value ranges of terms derived by interval propagation (ast id -> (lo, hi))
+KEEP = []            # keeps the terms alive so that their ast ids stay unique
+
+
+def interval(v):
+    """sound value range of an integer Val: exact for concrete terms, propagated range if known, else type/UB range"""
+    if is_conc(v.e):
+        c = conc_int(v.e)
+        return (c, c)
+    i = v.e.get_id()
+    if i in INTERVALS:
+        return INTERVALS[i]
+    if v.signed:
+        return (-(1 << (v.w - 1)), (1 << (v.w - 1)) - 1)
+    return (0, ubound(v))
+
+
 PRODS = []           # (x, y, p): p stands for x*y
 
 
@@ -93,6 +163,10 @@ def reset_state():
     del PRODS[:]
     _PROD.clear()
     UB.clear()
+    INTERVALS.clear()
+    _LINCACHE.clear()
+    _LINVARS.clear()
+    del KEEP[:]
 
 
 def wrap(e, w, signed):
@@ -134,6 +208,9 @@ class Interp:
         self.timeout = solver_timeout_ms
         self.summaries = {}       # callee selector -> python function(args) -> Val   (algebraic level)
         self.funcs_used = set()
+        self.merge_diamonds = False   # spec option merge_diamonds
+        self.merged = 0
+        self.interval_discharged = 0   # overflow checks decided by interval propagation inside the encoder
 
     # ---------------------------------------------------------------------------------------------------------
     def run(self, func, args, pre):
@@ -145,7 +222,8 @@ class Interp:
         return self.paths
 
     def _finish(self, pc, ret):
-        self.paths.append({"pc": pc, "ret": ret})
+        # `arg1`: final value behind the first argument (for functions that update `&mut` state in place)
+        self.paths.append({"pc": pc, "ret": ret, "arg1": getattr(self, "_ret_env", {}).get("_1")})
 
     def _feasible(self, pc):
         s = z3.Solver()
@@ -169,6 +247,8 @@ class Interp:
     def _exec_block(self, fr, label, idx, pc, depth, cont):
         func = fr["func"]
         while True:
+            if fr.get("stop") and idx == 0 and label == fr["stop"][0]:
+                return fr["stop"][1](fr, pc)
             fr["visits"] += 1
             if fr["visits"] > self.max_visits:
                 raise PathLimit(f"visit bound exceeded in {func['name']}")
@@ -183,6 +263,7 @@ class Interp:
                     label, idx, jumped = s[len("goto -> "):].rstrip(";"), 0, True
                     break
                 if s == "return;":
+                    self._ret_env = fr["env"]
                     return cont(pc, fr["env"].get("_0"))
                 if s.startswith("unreachable"):
                     return
@@ -208,7 +289,11 @@ class Interp:
                     return self._call(fr, dest, callee, argstr, nxt, pc, depth, cont)
                 m = re.match(r"^(.+?) = (.+);$", s)
                 if m:
-                    self._assign(fr, m.group(1), self._rvalue(fr, m.group(2)))
+                    self._last_ref_target = None
+                    val = self._rvalue(fr, m.group(2))
+                    if self._last_ref_target is not None and re.match(r"^_\d+$", m.group(1).strip()):
+                        fr.setdefault("refs", {})[m.group(1).strip()] = self._last_ref_target
+                    self._assign(fr, m.group(1), val)
                     continue
                 raise Unsupported("statement: " + s)
             if not jumped:
@@ -239,17 +324,115 @@ class Interp:
             conds.append((e == k, t))
         if other:
             conds.append((z3.And(*[e != k for k, _ in arms]), other))
+        if self.merge_diamonds and len(conds) == 2 and not fr.get("stop"):
+            if self._try_merge(fr, conds, pc, depth, cont):
+                return
         for c, t in conds:
             npc = pc + [c]
             if self._feasible(npc):
-                fr2 = {"func": fr["func"], "env": dict(fr["env"]), "generics": fr["generics"], "visits": fr["visits"]}
+                fr2 = {"func": fr["func"], "env": dict(fr["env"]), "generics": fr["generics"], "visits": fr["visits"],
+                       "refs": dict(fr.get("refs", {}))}
+                if fr.get("stop"):
+                    fr2["stop"] = fr["stop"]
                 self._exec_block(fr2, t, 0, npc, depth, cont)
+
+    # state merging for call-free diamonds (if/else over plain arithmetic): both arms are executed up to their join block
+    # and the environments are merged with If(cond, a, b); overflow assertions inside an arm are recorded as obligations
+    # under that arm's path condition exactly as without merging. Keeps loops with a data-dependent branch per iteration
+    # at one path instead of 2^n.
+    def _chain(self, func, label, limit=6):
+        out = []
+        while len(out) < limit:
+            out.append(label)
+            term = func["blocks"][label][-1]
+            if term.startswith("goto -> "):
+                label = term[len("goto -> "):].rstrip(";")
+            elif term.startswith("assert("):
+                m = re.search(r"success: (bb\d+)", term)
+                if not m:
+                    break
+                label = m.group(1)
+            else:
+                break
+        return out
+
+    def _merge_val(self, c, a, b):
+        if a is b:
+            return a
+        if a is None or b is None or a.kind != b.kind:
+            raise Unsupported("merge: shapes differ")
+        if a.kind == "int":
+            if a.w != b.w or a.signed != b.signed:
+                raise Unsupported("merge: int types differ")
+            if a.e.eq(b.e):
+                return a
+            r = Val("int", e=z3.If(c, a.e, b.e), w=a.w, signed=a.signed)
+            (la, ha), (lb, hb) = interval(a), interval(b)
+            INTERVALS[r.e.get_id()] = (min(la, lb), max(ha, hb))
+            KEEP.append(r.e)
+            return r
+        if a.kind == "bool":
+            return a if a.e.eq(b.e) else Val("bool", e=z3.If(c, a.e, b.e))
+        if a.kind in ("struct", "array", "tuple") and a.items is not None and b.items is not None and len(a.items) == len(b.items):
+            return Val(a.kind, items=[self._merge_val(c, x, y) for x, y in zip(a.items, b.items)], name=a.name)
+        raise Unsupported("merge: kind " + a.kind)
+
+    def _try_merge(self, fr, conds, pc, depth, cont):
+        func = fr["func"]
+        (c1, t1), (c2, t2) = conds
+        ch1, ch2 = self._chain(func, t1), self._chain(func, t2)
+        join = next((l for l in ch1 if l in ch2), None)
+        if join is None:
+            return False
+        arms = []
+        for c, t in ((c1, t1), (c2, t2)):
+            npc = pc + [c]
+            if not self._feasible(npc):
+                arms.append(None)
+                continue
+            fr2 = {"func": func, "env": dict(fr["env"]), "generics": fr["generics"], "visits": fr["visits"],
+                   "refs": dict(fr.get("refs", {}))}
+            box = []
+            if t == join:
+                box.append((fr2, npc))
+            else:
+                fr2["stop"] = (join, lambda f, p, box=box: box.append((f, p)))
+                self._exec_block(fr2, t, 0, npc, depth, None)
+            arms.append(box[0] if box else None)
+        live = [a for a in arms if a is not None]
+        if not live:
+            return True
+        if len(live) == 1:
+            f, p = live[0]
+            f.pop("stop", None)
+            self._exec_block(f, join, 0, p, depth, cont)
+            return True
+        (f1, p1), (f2, p2) = live
+        if f1.get("refs", {}) != f2.get("refs", {}):
+            return False
+        try:
+            env = {}
+            for k in set(f1["env"]) | set(f2["env"]):
+                a, b = f1["env"].get(k), f2["env"].get(k)
+                env[k] = a if b is None else b if a is None else self._merge_val(c1, a, b)
+        except Unsupported:
+            return False
+        frm = {"func": func, "env": env, "generics": fr["generics"], "visits": max(f1["visits"], f2["visits"]),
+               "refs": dict(f1.get("refs", {}))}
+        x1, x2 = p1[len(pc):], p2[len(pc):]
+        self.merged += 1
+        self._exec_block(frm, join, 0, pc + [z3.Or(z3.And(*x1), z3.And(*x2))], depth, cont)
+        return True
 
     # ---------------------------------------------------------------------------------------------------------
     def _place_get(self, fr, p):
         p = p.strip()
         if p.startswith("(*") and p.endswith(")"):
             return self._place_get(fr, p[2:-1])
+        m = re.match(r"^\(\((.+) as (\w+)\)\.(\d+): .+\)$", p)
+        if m:   # enum payload projection, e.g. ((_8 as Some).0: usize)
+            base = self._place_get(fr, m.group(1))
+            return base.items[1][int(m.group(3))]
         m = re.match(r"^\((.+)\.(\d+): .+\)$", p)
         if m:
             base = self._place_get(fr, m.group(1))
@@ -300,6 +483,11 @@ class Interp:
             return Val("unit")
         if c in fr["generics"]:
             return mk_int(fr["generics"][c], 64)
+        m = re.match(r"^(?:core::num::<impl )?([ui](?:8|16|32|64|128|size))>?::(MIN|MAX)$", c)
+        if m:
+            w, sg = ty_info(m.group(1))
+            lo, hi = (-(1 << (w - 1)), (1 << (w - 1)) - 1) if sg else (0, (1 << w) - 1)
+            return mk_int(lo if m.group(2) == "MIN" else hi, w, sg)
         m = re.match(r"^(.+?)(?:::<.*>)?$", c)
         try:
             val, ty = self.P.const(c)
@@ -309,6 +497,15 @@ class Interp:
             pass
         if c in self.const_hook:
             return self.const_hook[c]
+        # constants with a body (arrays / tuples / structs) are evaluated by running their MIR
+        cands = [f for f in self.P.funcs if f["name"].startswith("const ") and (f["name"][6:] == c or f["name"][6:].endswith("::" + c.split("::")[-1]) and c.split("::")[-1] == f["name"].split("::")[-1])]
+        exact = [f for f in cands if f["name"][6:] == c]
+        cands = exact or [f for f in cands if c.endswith(f["name"][6:]) or f["name"][6:].endswith(c)]
+        if len({f["header"] for f in cands}) == 1:
+            box = []
+            self._exec_fn(cands[0], [], [], 0, lambda pc, ret: box.append(ret))
+            if len(box) == 1:
+                return box[0]
         raise Unsupported("const: " + c)
 
     const_hook = {}
@@ -332,7 +529,13 @@ class Interp:
             w, sg = ti
             if v.kind == "bool":
                 return mk_int(z3.If(v.e, z3.IntVal(1), z3.IntVal(0)), w, sg)
-            # value-preserving when it fits, wrap otherwise
+            # value-preserving when the known value range fits the target type, wrap otherwise
+            tl, th = (-(1 << (w - 1)), (1 << (w - 1)) - 1) if sg else (0, (1 << w) - 1)
+            vl, vh = interval(v)
+            if tl <= vl and vh <= th and not is_conc(v.e):
+                INTERVALS[v.e.get_id()] = (vl, vh)
+                KEEP.append(v.e)
+                return Val("int", e=v.e, w=w, signed=sg)
             if (not v.signed) and (not sg) and v.w <= w:
                 r = Val("int", e=v.e, w=w, signed=False)
                 UB[v.e.get_id()] = min(UB.get(v.e.get_id(), (1 << v.w) - 1), (1 << v.w) - 1)
@@ -348,9 +551,24 @@ class Interp:
             return self._binop(op, self._operand(fr, a), self._operand(fr, b))
         if r.startswith(("copy ", "move ", "const ")):
             return self._operand(fr, r)
+        m = re.match(r"^discriminant\((.+)\)$", r)
+        if m:
+            v = self._place_get(fr, m.group(1))
+            if v.kind != "enum":
+                raise Unsupported("discriminant of " + v.kind)
+            return mk_int(v.items[0], 64, True)
+        m = re.match(r"^([\w:<>, ]+?) \{ (.*) \}$", r)
+        if m:   # struct literal with named fields, e.g. core::ops::Range::<usize> { start: .., end: .. }
+            import mir as _m
+            fields = [f.split(": ", 1)[1] for f in _m.split_args(m.group(2))]
+            return Val("struct", items=[self._operand(fr, x) for x in fields], name=m.group(1))
         if r.startswith("&"):
             rr = re.sub(r"^&(raw )?(mut |const )?", "", r)
-            return self._place_get(fr, rr)
+            v = self._place_get(fr, rr)
+            if re.match(r"^_\d+$", rr.strip()):
+                # remember which local a reference to a plain local points to (needed by iterator `next(&mut it)`)
+                self._last_ref_target = rr.strip()
+            return v
         if r.startswith("(") and r.endswith(")"):
             import mir as _m
             return Val("tuple", items=[self._operand(fr, x) for x in _m.split_args(r[1:-1])])
@@ -376,6 +594,13 @@ class Interp:
                 return mk_int(-a.e - 1, a.w, True)
             return mk_int((1 << a.w) - 1 - a.e, a.w)
         if op == "Neg":
+            al, ah = interval(a)
+            tl, th = (-(1 << (a.w - 1)), (1 << (a.w - 1)) - 1) if a.signed else (0, (1 << a.w) - 1)
+            if tl <= -ah and -al <= th and not is_conc(a.e):
+                t = -a.e
+                INTERVALS[t.get_id()] = (-ah, -al)
+                KEEP.append(t)
+                return Val("int", e=t, w=a.w, signed=a.signed)
             return Val("int", e=wrap(-a.e, a.w, a.signed), w=a.w, signed=a.signed)
         raise Unsupported(op)
 
@@ -387,6 +612,24 @@ class Interp:
     def _binop(self, op, a, b):
         w, sg = a.w, a.signed
         lo, hi = (-(1 << (w - 1)), (1 << (w - 1)) - 1) if sg else (0, (1 << w) - 1) if w else (0, 0)
+        if op in ("Add", "Sub", "Mul", "AddUnchecked", "SubUnchecked", "MulUnchecked", "AddWithOverflow", "SubWithOverflow", "MulWithOverflow"):
+            # interval propagation: when the operands' known value ranges prove that the exact result fits the type,
+            # the operation is exact (no wrap variable, overflow flag concretely false)
+            (la, ha), (lb, hb) = interval(a), interval(b)
+            if op.startswith("Add"):
+                rl, rh = la + lb, ha + hb
+            elif op.startswith("Sub"):
+                rl, rh = la - hb, ha - lb
+            else:
+                c4 = (la * lb, la * hb, ha * lb, ha * hb)
+                rl, rh = min(c4), max(c4)
+            if lo <= rl and rh <= hi and not (is_conc(a.e) and is_conc(b.e)):
+                t = a.e + b.e if op.startswith("Add") else a.e - b.e if op.startswith("Sub") else self._product(a, b)
+                INTERVALS[t.get_id()] = (rl, rh)
+                KEEP.append(t)
+                self.interval_discharged += 1
+                r = Val("int", e=t, w=w, signed=sg)
+                return Val("tuple", items=[r, mk_bool(False)]) if op.endswith("WithOverflow") else r
         if op in ("Add", "Sub", "Mul", "AddUnchecked", "SubUnchecked", "MulUnchecked"):
             t = a.e + b.e if op.startswith("Add") else a.e - b.e if op.startswith("Sub") else self._product(a, b)
             return Val("int", e=wrap(t, w, sg), w=w, signed=sg)
@@ -409,10 +652,30 @@ class Interp:
             if not is_conc(b.e):
                 raise Unsupported("symbolic shift amount")
             k = conc_int(b.e) % w
+            al, ah = interval(a)
             if op.startswith("Shl"):
+                if lo <= al * (1 << k) and ah * (1 << k) <= hi and not is_conc(a.e):
+                    t = a.e * (1 << k)
+                    INTERVALS[t.get_id()] = (al * (1 << k), ah * (1 << k))
+                    KEEP.append(t)
+                    return Val("int", e=t, w=w, signed=sg)
                 return Val("int", e=wrap(a.e * (1 << k), w, sg), w=w, signed=sg)
             # floor division == logical shift for unsigned, arithmetic shift for signed
+            lf = linear_form(a.e) if not is_conc(a.e) else None
+            if lf is not None and all(c % (1 << k) == 0 for c in lf[0].values()) and lf[1] % (1 << k) == 0:
+                # every coefficient of the (linear) operand is divisible by 2^k: the shift is an exact division
+                t = z3.IntVal(lf[1] >> k)
+                for vid, c in lf[0].items():
+                    t = t + (c >> k) * _LINVARS[vid]
+                t = z3.simplify(t)
+                if not is_conc(t):
+                    INTERVALS[t.get_id()] = (al >> k, ah >> k)
+                    KEEP.append(t)
+                return Val("int", e=t, w=w, signed=sg)
             d, _ = divmod_c(a.e, 1 << k)
+            if not is_conc(d):
+                INTERVALS[d.get_id()] = (al >> k, ah >> k)
+                KEEP.append(d)
             return Val("int", e=d, w=w, signed=sg)
         if op in ("BitAnd", "BitOr", "BitXor"):
             if a.kind == "bool":
@@ -442,6 +705,24 @@ class Interp:
         for k, v in fr["generics"].items():
             callee = re.sub(r"\b%s\b" % re.escape(k), str(v), callee)
         r = self._intrinsic(callee, args)
+        if r is None and re.match(r"^<(core::ops::)?Range<\w+> as IntoIterator>::into_iter$", callee):
+            r = args[0]
+        if r is None and re.match(r"^<(core::ops::)?Range<\w+> as Iterator>::next$", callee):
+            # `next(&mut it)`: the range behind the reference is advanced in the caller's frame
+            opnd = _m.split_args(argstr)[0].strip()
+            loc = re.sub(r"^(copy|move) ", "", opnd)
+            target = fr.get("refs", {}).get(loc)
+            if target is None:
+                raise Unsupported("Range::next on an untracked reference " + opnd)
+            rng = self._place_get(fr, target)
+            s, e = rng.items[0], rng.items[1]
+            if not (is_conc(s.e) and is_conc(e.e)):
+                raise Unsupported("symbolic range bounds")
+            if conc_int(s.e) < conc_int(e.e):
+                self._assign(fr, target, Val("struct", items=[mk_int(conc_int(s.e) + 1, s.w, s.signed), e], name=rng.name))
+                r = Val("enum", items=[z3.IntVal(1), [s]], name="Option")
+            else:
+                r = Val("enum", items=[z3.IntVal(0), []], name="Option")
         if r is None:
             for sel, fn in self.summaries.items():
                 if sel(callee):
@@ -453,7 +734,8 @@ class Interp:
         func, generics = self.resolve(callee, args)
 
         def after(pc2, ret):
-            fr2 = {"func": fr["func"], "env": dict(fr["env"]), "generics": fr["generics"], "visits": fr["visits"]}
+            fr2 = {"func": fr["func"], "env": dict(fr["env"]), "generics": fr["generics"], "visits": fr["visits"],
+                   "refs": dict(fr.get("refs", {}))}
             self._assign(fr2, dest, ret)
             self._exec_block(fr2, nxt, 0, pc2, depth, cont)
 
